@@ -1193,7 +1193,91 @@ theorem source_defaults_match :
      ({} : Transform).xOffset, ({} : Transform).yOffset] = Generated.GlifParser.transformDefault := by
   decide +kernel
 
+/-- **source tie**: WHICH name the source compares.  Every element-name comparison of `parse.rs` (the root test of
+    `start`, the `Start`/`Empty` dispatch and the end test of `parse_body` and `parse_outline`, the point and end tests of
+    `parse_contour`, the end tests of `parse_lib` and `parse_note`) reads `name()`, the tag exactly as written, and every
+    attribute loop matches on `attr.key.as_ref()`, the attribute name exactly as written — never `local_name()`, which
+    drops a namespace prefix.  This is what the model assumes: its `Ev.start n`/`Ev.empty n`/`Ev.close n` and `Attr` carry
+    the full names (the harness tokenises with `name()` and `key`), and `step` compares them literally, so by
+    `qualified_name_unknown` and `unknown_element_refused` a `<x:advance/>` is an unknown element. -/
+theorem source_dispatch_on_full_name :
+    Generated.GlifParser.elementNameAccessors.map (·.1) =
+      ["start".toList, "parse_body".toList, "parse_outline".toList, "parse_contour".toList, "parse_lib".toList, "parse_note".toList] ∧
+    Generated.GlifParser.elementNameAccessors.all (fun r => !r.2.isEmpty && r.2.all (· == "name".toList)) = true ∧
+    Generated.GlifParser.attrNameAccessors.map (·.1) = Generated.GlifParser.unknownAttrError.map (·.1) ∧
+    Generated.GlifParser.attrNameAccessors.all (fun r => !r.2.isEmpty && r.2.all (· == "key".toList)) = true := by
+  decide +kernel
+
 end SourceTie
+
+/-! ### names that only resemble a known name (namespace prefix, case, a kept blank, a control character) -/
+
+/-- **an element whose tag is not literally a known name is refused at every level, in both forms**: before the root
+    (`WrongFirstElement`), in the glyph body, in the outline and in a contour (`UnexpectedElement`) -/
+theorem unknown_element_refused (rd : Str → Option Nat) (s : PS) (ob : OB) (cid : Option Str) (pts : List Point) {n : Str}
+    (a : Option (List Attr)) (r : List Ev) (h : knownNames.contains n = false) :
+    scanStart (.start n a :: r) = .error .wrongFirstElement ∧
+    bodyStart s n = .error .unexpectedElement ∧ bodyEmpty rd s n a = .error .unexpectedElement ∧
+    stepOutline rd s ob (.start n a) = .error .unexpectedElement ∧ stepOutline rd s ob (.empty n a) = .error .unexpectedElement ∧
+    stepContour rd s ob cid pts (.start n a) = .error .unexpectedElement ∧
+    stepContour rd s ob cid pts (.empty n a) = .error .unexpectedElement := by
+  refine ⟨?_, ?_, ?_, ?_, ?_, ?_, ?_⟩
+  · have hg : [sGlyph].contains n = false := contains_false_of_sub (by decide) h
+    have : n ≠ sGlyph := by simpa using hg
+    simp [scanStart, this]
+  · exact bodyStart_unknown s (contains_false_of_sub (by decide) h)
+  · exact bodyEmpty_unknown rd s a (contains_false_of_sub (by decide) h)
+  · exact (stepOutline_unknown rd s ob a).1 (contains_false_of_sub (by decide) h)
+  · exact (stepOutline_unknown rd s ob a).2 (contains_false_of_sub (by decide) h)
+  · exact (stepContour_unknown rd s ob cid pts a).2
+  · exact (stepContour_unknown rd s ob cid pts a).1 (contains_false_of_sub (by decide) h)
+
+/-- **an attribute whose name is not literally a known name ends every attribute loop with a refusal** -/
+theorem unknown_attr_name_refused (rd : Str → Option Nat) (ver : Nat) (seen : List Str) (a : Attr)
+    (h : knownNames.contains a.1 = false) :
+    (∀ acc, gStep acc a = none) ∧ (∀ acc, advStep rd acc a = none) ∧ (∀ acc, uniStep acc a = none) ∧
+    (∀ acc, aStep rd ver seen acc a = none) ∧ (∀ acc, guStep rd ver seen acc a = none) ∧ (∀ acc, iStep rd acc a = none) ∧
+    (∀ acc, pStep rd ver seen acc a = none) ∧ (∀ acc, cStep rd ver seen acc a = none) ∧ (∀ acc, ctStep ver seen acc a = none) := by
+  obtain ⟨h1, h2, h3, h4, h5, h6, h7, h8, h9⟩ := step_refuses_unknown rd ver seen a
+  exact ⟨h1 (contains_false_of_sub (by decide) h), h2 (contains_false_of_sub (by decide) h), h3 (contains_false_of_sub (by decide) h),
+    h4 (contains_false_of_sub (by decide) h), h5 (contains_false_of_sub (by decide) h), h6 (contains_false_of_sub (by decide) h),
+    h7 (contains_false_of_sub (by decide) h), h8 (contains_false_of_sub (by decide) h), h9 (contains_false_of_sub (by decide) h)⟩
+
+/-- **a known name behind a namespace prefix is an unknown name**: `x:advance`, `xml:advance`, `:advance`, `advance:`,
+    `x:width` … — anything with a colon in it — is in no table of the parser, whatever stands before and after the colon,
+    so `unknown_element_refused` and `unknown_attr_name_refused` apply to it -/
+theorem qualified_name_unknown (p n : Str) : knownNames.contains (p ++ ':' :: n) = false :=
+  not_in_of_nonletter knownNames_letters (c := ':') (by simp) (by decide)
+
+/-- the same for a name with a blank that quick-xml keeps in the name (anything but space, tab, CR, LF ends up there:
+    U+00A0, U+3000, VT, FF …) or a control character next to or inside a known name -/
+theorem decorated_name_unknown (p n : Str) (c : Char) (hc : c.isAlpha = false) : knownNames.contains (p ++ c :: n) = false :=
+  not_in_of_nonletter knownNames_letters (c := c) (by simp) hc
+
+/-- **the specification oracle treats such a name as unknown too**: `Spec.itemCheck` (the per-item part of `Spec.judge`)
+    answers `unknown-element` for every content-free body element whose name is not literally a known name, and in the
+    outline / in a contour for everything that is not literally `component` / `point` -/
+theorem spec_unknown_element (rd : Str → Option Nat) (ver : Nat) (e : Spec.Elem) (h : knownNames.contains e.name = false) :
+    Spec.itemCheck rd ver (.elem e) = (["unknown-element"], false) ∧
+    Spec.oitemCheck rd ver (.elem e) = (["unknown-element"], false) := by
+  have hb : Spec.bodyNames.contains e.name = false := contains_false_of_sub (by decide) h
+  have hn : [sNote, sLib, sComponent].contains e.name = false := contains_false_of_sub (by decide) h
+  simp only [List.contains_cons, List.contains_nil, Bool.or_false, Bool.or_eq_false_iff, beq_eq_false_iff_ne, ne_eq] at hn
+  obtain ⟨h1, h2, h3⟩ := hn
+  constructor
+  · have hb' : e.name ∉ Spec.bodyNames := fun hm => by
+      rw [List.contains_iff_mem.2 hm] at hb; cases hb
+    simp [Spec.itemCheck, hb', h1, h2]
+  · simp [Spec.oitemCheck, h3]
+
+-- `<x:advance width="500"/>` in the body of a format-2 glyph: refused
+example : bodyEmpty K { g := { name := ['a'] }, ver := 2 } ("x:advance".toList) (some [("width".toList, "500".toList)])
+    = .error .unexpectedElement :=
+  (unknown_element_refused K _ {} none [] _ [] (qualified_name_unknown ['x'] "advance".toList)).2.2.1
+-- `Advance` is not `advance`
+example : knownNames.contains "Advance".toList = false :=
+  case_variant_unknown (n := sAdvance) (by decide) (by decide) (by decide)
+
 
 /-! ### the specification's element check and the model (non-vacuity of the link) -/
 
